@@ -78,7 +78,7 @@ def _analyse(c, o):
     if len(toks) != len(items):
         res["viol"].append(("malformed", f"{len(toks)} observations for {len(items)} schedule items")); return res
     cur, prev_op, myrun = {}, {}, {}
-    state, admits, lost, run = 0, 0, False, 0
+    state, admits, lost, run, loser_reset, won = 0, 0, False, 0, False, {}
     last_tid = None
     for k, ((tid, m, dt), tok) in enumerate(zip(items, toks)):
         arr, _, snap = tok.rpartition("/")
@@ -104,10 +104,15 @@ def _analyse(c, o):
                 res["viol"].append(("open_early", f"step {k}: thread {tid} opened the breaker from Closed after {myrun.get(tid, 0)} consecutive counted failures, threshold {cfg['thr']}"))
         if before == 0 and after == 1 and op != "to_open:state.store":
             res["viol"].append(("open_early", f"step {k}: state went Closed->Open at {op}, not through a failure report"))
+        if op == "to_half_open:state.compare_exchange":
+            won[tid] = (before == 1 and after == 2)
         if before != 2 and after == 2:
-            admits, lost = 0, False; res["episodes"] += 1
+            admits, lost, loser_reset = 0, False, False; res["episodes"] += 1
         if op.endswith("half_open_call_count.store") and after == 2 and admits > 0:
             lost = True
+            # the known residual race is a reset by the WINNER of the exchange or by a delayed transition_to_open/closed;
+            # a reset by a thread that lost the exchange is the defect repaired by c4b550e, never the known finding
+            if op.startswith("to_half_open:") and not won.get(tid, False): loser_reset = True
         if arr == "PANIC":
             res["panic"] = True
             res["viol"].append(("panic", f"step {k}: thread {tid} panicked in {METHOD[method]} at {op}"))
@@ -116,7 +121,7 @@ def _analyse(c, o):
             if lost: res["kpeak"] = max(res["kpeak"], admits)
             else: res["peak"] = max(res["peak"], admits)
             if admits > cfg["max"]:
-                if lost:
+                if lost and not loser_reset:
                     res["viol"].append(("probe_bound_reset_race", f"step {k}: {admits} requests admitted in one half-open episode, max {cfg['max']}, after a reset of half_open_call_count landed inside the episode"))
                 else:
                     res["viol"].append(("probe_bound", f"step {k}: {admits} requests admitted in one half-open episode, max {cfg['max']}"))
